@@ -183,6 +183,27 @@ def main(run, args):
         nspec += 1
         if want != got:
             failing.append({"fn": f, "args": a, "implementation": got, "tree_spec": want})
+    # --- the range check of the node vector itself (node.rs NodeVec::validate_index, behind borrow_node / is_blank /
+    # borrow_as_parent ...): a vector of `len` nodes is the trimmed tree over n = next_power_of_two((len+1)/2) leaf
+    # slots, whose nodes are 0 .. 2n-2; everything else is outside and must be reported as such
+    nvq = []
+    lens = list(range(1, 70, 2)) + [127, 129, 255, 257, 511, 513, 1023, 1025] + ([2047, 4095, 4097, 8191] if run.tier != "quick" else [])
+    for ln in lens:
+        n = 1
+        while n < (ln + 1) // 2:
+            n *= 2
+        for idx in sorted(set(list(range(0, min(2 * n + 4, 40))) + list(range(max(0, ln - 2), ln + 3)) + list(range(max(0, 2 * n - 4), 2 * n + 4)))):
+            nvq.append((ln, n, idx))
+    rc2, out2, err2 = sh([MLSH, "treemath"], input="".join(f"nodevec {ln} {idx}\n" for ln, n, idx in nvq), timeout=600)
+    nv_lines = out2.split("\n")
+    if rc2 != 0 or len(nv_lines) < len(nvq):
+        broken.append(("harness", "mlsh treemath nodevec failed: " + err2[-400:]))
+    else:
+        for (ln, n, idx), got in zip(nvq, nv_lines):
+            want = "1" if idx <= 2 * n - 2 else "0"
+            if got.strip() != want:
+                    failing.append({"fn": "NodeVec::borrow_node", "nodes_in_vector": ln, "leaf_slots": n, "index": idx, "implementation": "answered as a node of the tree" if got.strip() == "1" else got.strip(), "tree_spec": "in the tree" if want == "1" else "outside the tree (nodes are 0..%d)" % (2 * n - 2)})
+    run.cov["node_vector_range_queries"] = len(nvq)
     # --- correspondence: generated Gallina (vm_compute) vs implementation
     mism = []
     coq_cases = 0
